@@ -74,8 +74,15 @@ class Rig (object):
     blob = b""
     for p, c in cfg.items():
       if self.cfg[p] != c:
+        # only the bits selected by the mask may change: the mask names just
+        # the bits that differ, and every second message carries ones in the
+        # config bits the mask does NOT select (they must be ignored)
+        self.nmods = getattr(self, "nmods", 0) + 1
+        mask = (self.cfg[p] ^ c) & MASK
+        config = c & mask
+        if self.nmods % 2: config |= MASK & ~mask
         blob += ofwire.enc_message("port_mod", dict(
-          xid=self.nx(), port_no=p, hw_addr=hw(p), config=c, mask=MASK,
+          xid=self.nx(), port_no=p, hw_addr=hw(p), config=config, mask=mask,
           advertise=0))
         self.cfg[p] = c
     if blob:
